@@ -29,6 +29,15 @@ type crashHistory struct {
 	// moved out of the directory and linked back), "hardlink" (a second name for the entry exists outside),
 	// "dangling-symlink" (a link to nothing is in the entry's place)
 	Shape string
+	// Fault: one file-system step of the crashing store fails with an error (and the process dies later, on whatever
+	// path the store takes after the error)
+	Fault *faultSpec
+}
+
+type faultSpec struct {
+	At   int
+	Err  error
+	Name string
 }
 
 var entryNames = map[string]string{}
@@ -217,6 +226,14 @@ func RunC20(c *engine.Ctx) {
 			}
 			c.Group(h.Name)
 		}
+		// one injected error, then a crash: a store that meets a failing step may take another path (a fallback, a
+		// clean-up); the process can die anywhere on that path too. For every step of the fault-free store and every
+		// error of the menu the continuation is recorded; where it still touches the file system after the failed step,
+		// every crash point of the continuation is enumerated.
+		if !h.CrossDevice && h.Shape == "" {
+			faultCrash(c, h, log)
+			c.Group(h.Name)
+		}
 		// crash after the last step = completed store
 		c.Case(func() any {
 			return map[string]any{"history": h.Name, "crash-before-step": len(log), "step": "none (store completed)"}
@@ -224,6 +241,61 @@ func RunC20(c *engine.Ctx) {
 			return crashCase(t, h, len(log), 0, nil)
 		})
 	}
+}
+
+var faultMenu = []struct {
+	Name string
+	Err  error
+}{{"EACCES", vfs.EACCES}, {"ENOSPC", vfs.ENOSPC}, {"EIO", vfs.EIO}, {"EROFS", vfs.EROFS}, {"EEXIST", vfs.EEXIST}, {"EMFILE", vfs.EMFILE}}
+
+func faultCrash(c *engine.Ctx, h crashHistory, cleanLog []vfs.Step) {
+	c.Group(h.Name + "+fault+crash")
+	total, paths := 0, 0
+	for fk := range cleanLog {
+		for _, fm := range faultMenu {
+			// recording run with the fault alone
+			sandbox, dir, err := setup(h)
+			if err != nil {
+				os.RemoveAll(sandbox)
+				continue
+			}
+			vfs.SetFaultCrash(fk, fm.Err, -1, 0)
+			_ = doStore(dir, docVariant(h.Last.Doc, h.Last.ID), h.Last.NoClobber)
+			flog := vfs.Log()
+			vfs.Reset(vfs.Passthrough)
+			os.RemoveAll(sandbox)
+			// does the store still change the file system after the failed step?
+			mutatesAfter := false
+			for i := fk + 1; i < len(flog); i++ {
+				if flog[i].Mutating && flog[i].Kind != "close" {
+					mutatesAfter = true
+				}
+			}
+			if !mutatesAfter {
+				continue
+			}
+			paths++
+			hf := h
+			hf.Fault = &faultSpec{At: fk, Err: fm.Err, Name: fm.Name}
+			hf.Name = fmt.Sprintf("%s+%s-at-step-%d", h.Name, fm.Name, fk)
+			for k := fk + 1; k <= len(flog); k++ {
+				maxP := 0
+				if k < len(flog) && flog[k].Kind == "write" {
+					maxP = flog[k].Bytes
+				}
+				for p := 0; p <= maxP; p++ {
+					k, p := k, p
+					total++
+					c.Case(func() any {
+						return map[string]any{"history": h.Name, "failing-step": fk, "error": fm.Name, "steps-after-the-error": stepsString(flog[fk+1:]), "crash-before-step": k, "bytes-of-write-performed": p}
+					}, func(t *engine.T) *engine.Violation {
+						return crashCase(t, hf, k, p, nil)
+					})
+				}
+			}
+		}
+	}
+	c.Bound(h.Name+"+fault+crash", fmt.Sprintf("every step of the store x %d errors: %d (step, error) pairs after which the store still changes the file system; every crash point of those continuations (%d crash states)", len(faultMenu), paths, total))
 }
 
 // recoveryOps: what the next process stores into the directory the crash left behind.
@@ -245,7 +317,11 @@ func crashCase(t *engine.T, h crashHistory, k, p int, post *op) *engine.Violatio
 		return engine.Violate("harness", "", "%v", err)
 	}
 	newDoc := docVariant(h.Last.Doc, h.Last.ID)
-	vfs.SetCrash(k, p)
+	if h.Fault != nil {
+		vfs.SetFaultCrash(h.Fault.At, h.Fault.Err, k, p)
+	} else {
+		vfs.SetCrash(k, p)
+	}
 	vfs.CrossDevice = h.CrossDevice
 	res := doStore(dir, newDoc, h.Last.NoClobber)
 	vfs.CrossDevice = false
